@@ -246,9 +246,12 @@ func implTarfsRead(line string) string {
 		for {
 			f, err := r.Next()
 			if err != nil {
-				if err == io.EOF {
+				switch {
+				case err == io.EOF:
 					out = append(out, "end:eof")
-				} else {
+				case strings.HasSuffix(err.Error(), ": hard links are not supported"):
+					out = append(out, "end:hardlink:"+hx([]byte(strings.TrimSuffix(err.Error(), ": hard links are not supported"))))
+				default:
 					out = append(out, "end:err")
 				}
 				return strings.Join(out, ";")
@@ -265,8 +268,8 @@ func implTarfsTar(line string) string {
 	_, a := parseCase(line)
 	b := unhx(a["bytes"])
 	return guard(func() string {
-		hdrs, datas, _ := libView(b, true)
-		if strings.Join(hdrs, ";") != a["hdrs"] || strings.Join(datas, ";") != a["datas"] {
+		hdrs, datas, end := libView(b, true)
+		if strings.Join(hdrs, ";") != a["hdrs"] || strings.Join(datas, ";") != a["datas"] || end != a["end"] {
 			return "stale-case (archive/tar reads this stream differently from what the case line records)"
 		}
 		var buf bytes.Buffer
@@ -506,6 +509,20 @@ func tarfsReadCases(cfg Config, rep *Report, m *Model, rng *rand.Rand) {
 			}
 		}
 		fill("", 0)
+		if rng.Intn(8) == 0 { // PAX global headers elsewhere: in the middle, several in a row, as the last record
+			g := func() ent {
+				return ent{&gnutar.Header{Typeflag: 'g', Name: "pax_global_header", Format: gnutar.FormatPAX, PAXRecords: map[string]string{"comment": fmt.Sprint(rng.Intn(1000))}}, nil}
+			}
+			at := rng.Intn(len(ents) + 1)
+			ins := []ent{g()}
+			if rng.Intn(2) == 0 {
+				ins = append(ins, g())
+			}
+			ents = append(ents[:at:at], append(ins, ents[at:]...)...)
+			if rng.Intn(2) == 0 {
+				ents = append(ents, g())
+			}
+		}
 		f := formats[rng.Intn(len(formats))]
 		written := 0
 		for _, e := range ents {
@@ -525,15 +542,23 @@ func tarfsReadCases(cfg Config, rep *Report, m *Model, rng *rand.Rand) {
 		}
 		tw.Close()
 		b := buf.Bytes()
-		hdrs, datas, _ := libView(b, true)
-		line := fmt.Sprintf("tarfs.tar root=%d hdrs=%s datas=%s bytes=%s", b2i(root), strings.Join(hdrs, ";"), strings.Join(datas, ";"), hx(b))
+		if rng.Intn(10) == 0 && len(b) > 1024+512 { // a stream cut short: archive/tar ends it with an error, which Tar must pass on
+			b = b[:len(b)-1024-1-rng.Intn(500)]
+		}
+		hdrs, datas, end := libView(b, true)
+		line := fmt.Sprintf("tarfs.tar root=%d hdrs=%s datas=%s end=%s bytes=%s", b2i(root), strings.Join(hdrs, ";"), strings.Join(datas, ";"), end, hx(b))
 		rep.Compare(m, line, implTarfsTar, nil)
 		res := implTarfsTar(line)
 		verdict := "ok"
 		if res == "err" || res == "panic" {
 			verdict = res
 		}
-		rep.Count(line, len(hdrs) >= 3, "tarfs.tar", "tarfs.tar:"+verdict, "tarfs.tar:entries-"+bucket(len(hdrs)))
+		rep.Count(line, len(hdrs) >= 3, "tarfs.tar", "tarfs.tar:"+verdict, "tarfs.tar:entries-"+bucket(len(hdrs)), "tarfs.tar:end-"+end)
+		for _, hs := range hdrs {
+			if h, ok := parseTarHdr(hs); ok && (h.Typeflag == '1' || h.Typeflag == 'g') {
+				rep.Histogram[fmt.Sprintf("tarfs.tar:with-flag-%q:%s", string(h.Typeflag), verdict)]++
+			}
+		}
 		// a stream shaped like a tree (first entry the root directory, nothing else named "." or leading upwards, no
 		// header whose mode field contradicts its type flag) must give a well-formed catar; for anything else what
 		// Tar does is whatever the model says (compared above) and is only counted
@@ -545,6 +570,29 @@ func tarfsReadCases(cfg Config, rep *Report, m *Model, rng *rand.Rand) {
 				}
 			} else {
 				rep.Histogram["tarfs.tar:not-tree-shaped"]++
+			}
+			// whatever the shape: a hard link entry or a PAX global header never becomes a node of the archive
+			notNodes := map[string]string{}
+			for _, hs := range hdrs {
+				if h, ok := parseTarHdr(hs); ok {
+					switch h.Typeflag {
+					case '1':
+						notNodes[path.Clean(h.Name)] = "a hard link entry"
+					case 'g':
+						notNodes[path.Clean(h.Name)] = "a PAX global header"
+					}
+				}
+			}
+			if len(notNodes) > 0 {
+				_, nodes := untarNodes(unhx(res))
+				for _, nd := range nodes {
+					f := strings.Split(nd, ":")
+					if len(f) > 1 {
+						if what, bad := notNodes[string(unhx(f[1]))]; bad {
+							monitor(what+" of the tar stream was packed as a node of the archive ("+string(unhx(f[1]))+")", line, nd)
+						}
+					}
+				}
 			}
 		}
 	}
@@ -559,6 +607,9 @@ func treeShaped(b []byte, addRoot bool) bool {
 		h, err := tr.Next()
 		if err != nil {
 			return err == io.EOF && !first
+		}
+		if h.Typeflag == 'g' {
+			continue
 		}
 		cis := uint32(h.Mode) &^ 07777
 		want := map[byte]uint32{'5': 040000, '6': 010000, '2': 0120000, '4': 060000, '3': 020000}[h.Typeflag]
@@ -629,6 +680,17 @@ func parseTarfsNode(a kv) tarfsNode {
 		}
 	}
 	return n
+}
+
+// nonEmptyXattrs: what archive/tar's reader returns of a set of extended attributes (a PAX record with an empty value is "no value")
+func nonEmptyXattrs(x map[string]string) desync.Xattrs {
+	out := desync.Xattrs{}
+	for k, v := range x {
+		if v != "" {
+			out[k] = v
+		}
+	}
+	return out
 }
 
 func tarResult(b []byte, err error) string {
@@ -768,7 +830,7 @@ func tarfsGenNode(rng *rand.Rand) tarfsNode {
 	if rng.Intn(5) == 0 {
 		n.xattrs = map[string]string{}
 		for i := 0; i < 1+rng.Intn(2); i++ {
-			n.xattrs[[]string{"user.a", "user.b", "security.capability"}[rng.Intn(3)]] = string(randBytes(rng, 1+rng.Intn(5)))
+			n.xattrs[[]string{"user.a", "user.b", "security.capability"}[rng.Intn(3)]] = string(randBytes(rng, rng.Intn(6))) // (an empty value: dropped by archive/tar's reader)
 		}
 	}
 	return n
@@ -804,10 +866,16 @@ func tarfsWriteCases(cfg Config, rep *Report, m *Model, rng *rand.Rand) {
 		rep.Compare(m, line2, implTarfsWrite, nil)
 		implB, implErr := tarWriterRun(n)
 		rep.Count(line, true, "tarfs.write", "tarfs.write:"+n.kind, "tarfs.write:"+tarErrKind(implErr))
-		// (2) the two clauses of archive/tar's contract the model states
-		if f["refuse"] == "1" && libErr == nil {
-			rep.Disagree(Disagreement{Kind: "correspondence", Case: line, Model: ans, Impl: clip(lib, 300),
-				What: "archive/tar contract: the model says the Writer refuses this header (FormatGNU with Xattrs), the library wrote it"})
+		// (2) archive/tar's contract as the model states it: which headers are refused (both directions, for names without
+		// NUL bytes, which the library refuses as well and node names never contain), and which header comes back
+		_, hdrErr := libWrite(h, "hdr-only", nil)
+		refusedByLib := hdrErr != nil && strings.Contains(hdrErr.Error(), "cannot encode header")
+		// the domain of the contract: names as the archive decoder builds them (clean, no NUL; the library refuses a trailing
+		// slash on anything but a directory), link targets without NUL, numbers below 2^56 (beyond, not even base-256 fits)
+		inDomain := path.Clean(n.name) == n.name && !strings.HasPrefix(n.name, "/") && !strings.ContainsRune(n.name, 0) && !strings.ContainsRune(n.target, 0) && n.major < 1<<56 && n.minor < 1<<56
+		if inDomain && (f["refuse"] == "1") != refusedByLib {
+			rep.Disagree(Disagreement{Kind: "correspondence", Case: line, Model: ans, Impl: fmt.Sprint(hdrErr),
+				What: "archive/tar contract: the model's wireRefuses and the library's WriteHeader disagree on whether this header is refused"})
 		}
 		if libErr == nil {
 			tr := gnutar.NewReader(bytes.NewReader(libB))
@@ -817,17 +885,30 @@ func tarfsWriteCases(cfg Config, rep *Report, m *Model, rng *rand.Rand) {
 					rep.Disagree(Disagreement{Kind: "correspondence", Case: line, Model: ans, Impl: got,
 						What: "archive/tar contract: the modification time that survives WriteHeader and Reader.Next is not the one the model states"})
 				}
+				back.Format = gnutar.FormatUnknown
+				if got := tarHdrStr(back); inDomain && got != f["back"] {
+					rep.Disagree(Disagreement{Kind: "correspondence", Case: line, Model: f["back"], Impl: got,
+						What: "archive/tar contract: the header Reader.Next returns for the model's header is not the one the model's `wire` states"})
+				}
 			}
 		}
 		// (3) the property on the implementation: what TarWriter wrote, read by TarReader
+		wellFormedNode := path.Clean(n.name) == n.name && !strings.HasPrefix(n.name, "/") && uint32(n.mode)&0x7fe00 == 0 && !strings.ContainsRune(n.name, 0)
 		if implErr != nil {
-			if len(n.xattrs) > 0 && strings.Contains(implErr.Error(), "only PAX supports Xattrs") {
-				finding(Disagreement{Kind: "monitor", Case: line2, Impl: implErr.Error(), Sig: "gnutar.xattrs.refused-under-format-gnu",
-					What: "untar to a GNU tar stream fails on a node with extended attributes: " + implErr.Error()})
+			msg := implErr.Error()
+			switch {
+			case !strings.Contains(msg, "cannot encode header"):
+				// content longer or shorter than the size announced: the generator's doing
+			case len(n.xattrs) > 0 && strings.Contains(msg, "cannot encode Mode="):
+				// a consequence of the recorded finding: os.FileMode bits in the mode field need a GNU header, xattrs a PAX header
+				finding(Disagreement{Kind: "monitor", Case: line2, Impl: msg, Sig: "gnutar.header-mode.filemode-bits",
+					What: "untar to a GNU tar stream fails on a " + n.kind + " with extended attributes whose header mode field holds os.FileMode bits: " + msg})
+			case wellFormedNode && n.major < 1<<21 && n.minor < 1<<21 && n.uid >= 0 && n.gid >= 0:
+				rep.Disagree(Disagreement{Kind: "monitor", Case: line2, Impl: msg,
+					What: "untar to a GNU tar stream fails on a " + n.kind + " node archive/tar could hold: " + msg})
 			}
 			continue
 		}
-		wellFormedNode := path.Clean(n.name) == n.name && uint32(n.mode)&0x7fe00 == 0 && !strings.ContainsRune(n.name, 0)
 		if !wellFormedNode {
 			continue
 		}
@@ -853,8 +934,8 @@ func tarfsWriteCases(cfg Config, rep *Report, m *Model, rng *rand.Rand) {
 		chk("type", gotStat&0xf000 == wantStat&0xf000)
 		chk("permission bits", gotStat&0777 == wantStat&0777)
 		chk("owner", back.Uid == n.uid && back.Gid == n.gid)
-		chk("whole seconds of the modification time", back.ModTime.Nanosecond() == 0 && back.ModTime.Unix()-n.mtime.Unix() <= 1 && back.ModTime.Unix() >= n.mtime.Unix())
-		if n.mtime.Nanosecond() == 0 {
+		chk("the second of the modification time", back.ModTime.Unix()-n.mtime.Unix() <= 1 && back.ModTime.Unix() >= n.mtime.Unix())
+		if n.mtime.Nanosecond() == 0 || (len(n.xattrs) > 0 && n.kind != "device") { // a PAX header keeps the nanoseconds
 			chk("modification time", back.ModTime.Equal(n.mtime))
 		}
 		switch n.kind {
@@ -865,7 +946,7 @@ func tarfsWriteCases(cfg Config, rep *Report, m *Model, rng *rand.Rand) {
 		case "device":
 			chk("device numbers", back.DevMajor == n.major && back.DevMinor == n.minor)
 		}
-		chk("extended attributes", xattrStr(desync.Xattrs(back.Xattrs)) == xattrStr(desync.Xattrs(n.xattrs)))
+		chk("extended attributes", xattrStr(desync.Xattrs(back.Xattrs)) == xattrStr(nonEmptyXattrs(n.xattrs)))
 		if len(bad) > 0 {
 			rep.Disagree(Disagreement{Kind: "monitor", Case: line2, Impl: tfileStr(back),
 				What: "GNU-tar output read back through the tar-stream input does not reproduce: " + strings.Join(bad, ", ")})
@@ -886,20 +967,25 @@ func tarfsWriteCases(cfg Config, rep *Report, m *Model, rng *rand.Rand) {
 	rep.Notes = append(rep.Notes, "tarfs.write outcomes: "+strings.Join(ks, " "))
 }
 
-// tarfsFindings: the property on the implementation for three fixed inputs (reported under their known-finding signatures).
-//   - a tree with an extended attribute, unpacked to a GNU tar stream
-//   - a tar stream of a tree in which one file has two names (what tar(1) writes: the second name is a hard link entry)
-//   - a tar stream that starts with a PAX global header (every `git archive` output does)
+// tarfsFindings: the property on the implementation for fixed inputs — the two defects of the tar-stream legs that were
+// repaired in c6df8d2 and 8595654 (each was a recorded finding before), asserted now:
+//   - a tree with extended attributes on a directory, a file and a symbolic link, unpacked to a GNU tar stream: the file's
+//     attributes must be in the stream; for the directory and the link the recorded finding gnutar.header-mode.filemode-bits
+//     still makes archive/tar refuse the header (os.FileMode bits in the mode field), which is reported under that signature
+//   - a tar stream of a tree in which one file has two names (tar(1) writes the second as a hard link entry): Tar must fail
+//   - a tar stream that starts with a PAX global header (every `git archive` output): the same catar as without it; also
+//     with two such headers in a row, one in the middle and one at the very end
 func tarfsFindings(rep *Report) {
 	mt := time.Unix(1500000000, 0)
 	stream := func(hs []*gnutar.Header, data map[string]string) []byte {
 		var b bytes.Buffer
 		tw := gnutar.NewWriter(&b)
 		for _, h := range hs {
+			h2 := *h
 			if d, ok := data[h.Name]; ok {
-				h.Size = int64(len(d))
+				h2.Size = int64(len(d))
 			}
-			tw.WriteHeader(h)
+			tw.WriteHeader(&h2)
 			if d, ok := data[h.Name]; ok {
 				tw.Write([]byte(d))
 			}
@@ -912,78 +998,116 @@ func tarfsFindings(rep *Report) {
 		err := desync.Tar(context.Background(), &c, desync.NewTarReader(bytes.NewReader(b), desync.TarReaderOptions{}))
 		return c.Bytes(), err
 	}
+	violation := func(caseLine, what, impl string) {
+		rep.Disagree(Disagreement{Kind: "monitor", Case: clip(caseLine, 100000), Impl: clip(impl, 1500), What: what})
+	}
 	// (1) extended attributes through the GNU-tar writer
-	{
-		recs := []fileRec{{name: ".", path: ".", kind: "dir", perm: 0755},
-			{name: "f", path: "f", kind: "reg", perm: 0644, data: []byte("x"), xattrs: map[string]string{"user.k": "v"}}}
-		enc := tarRecs(recs)
-		caseLine := "gnutar.xattrs " + recsCase(recs)
+	xa := map[string]string{"user.k": "v", "user.l": "w"}
+	for _, c := range []struct {
+		name string
+		recs []fileRec
+		must bool // must succeed on the code as it stands
+	}{
+		{"file", []fileRec{{name: ".", path: ".", kind: "dir", perm: 0755},
+			{name: "f", path: "f", kind: "reg", perm: 0644, data: []byte("x"), xattrs: xa, mtime: 1500000000123456789}}, true},
+		{"sticky-file", []fileRec{{name: ".", path: ".", kind: "dir", perm: 0755},
+			{name: "f", path: "f", kind: "reg", perm: 0644 | uint32(os.ModeSticky), data: []byte("x"), xattrs: xa}}, true},
+		{"directory", []fileRec{{name: ".", path: ".", kind: "dir", perm: 0755}, {name: "d", path: "d", kind: "dir", perm: 0755, xattrs: xa}}, false},
+		{"symlink", []fileRec{{name: ".", path: ".", kind: "dir", perm: 0755}, {name: "l", path: "l", kind: "symlink", perm: 0777, target: "t", xattrs: xa}}, false},
+		{"setuid-file", []fileRec{{name: ".", path: ".", kind: "dir", perm: 0755},
+			{name: "f", path: "f", kind: "reg", perm: 0755 | uint32(os.ModeSetuid), data: []byte("x"), xattrs: xa}}, false},
+	} {
+		enc := tarRecs(c.recs)
+		caseLine := "gnutar.xattrs." + c.name + " " + recsCase(c.recs)
 		rep.Count(caseLine, true, "tarfs.findings")
-		if enc != "err" && enc != "panic" {
-			var gt bytes.Buffer
-			tw := desync.NewTarWriter(&gt)
-			if err := desync.UnTar(context.Background(), bytes.NewReader(unhx(enc)), tw); err != nil {
-				rep.Disagree(Disagreement{Kind: "monitor", Case: caseLine, Impl: err.Error(), Sig: "gnutar.xattrs.refused-under-format-gnu",
-					What: "untar to a GNU tar stream fails on a node with extended attributes: " + err.Error()})
+		if enc == "err" || enc == "panic" {
+			violation(caseLine, "Tar failed", enc)
+			continue
+		}
+		var gt bytes.Buffer
+		tw := desync.NewTarWriter(&gt)
+		if err := desync.UnTar(context.Background(), bytes.NewReader(unhx(enc)), tw); err != nil {
+			if !c.must && strings.Contains(err.Error(), "cannot encode Mode=") {
+				rep.Histogram["tarfs.findings:gnutar-xattrs-"+c.name+":refused-for-filemode-bits"]++
+				rep.Disagree(Disagreement{Kind: "monitor", Case: caseLine, Impl: err.Error(), Sig: "gnutar.header-mode.filemode-bits",
+					What: "untar to a GNU tar stream fails on a " + c.name + " with extended attributes: the os.FileMode bits in the header's mode field need a GNU header, the attributes a PAX header: " + err.Error()})
 			} else {
-				tw.Close()
-				found := false
-				tr := gnutar.NewReader(&gt)
-				for {
-					h, err := tr.Next()
-					if err != nil {
-						break
-					}
-					if path.Clean(h.Name) == "f" && h.Xattrs["user.k"] == "v" {
-						found = true
-					}
+				violation(caseLine, "untar to a GNU tar stream fails on a "+c.name+" with extended attributes: "+err.Error(), err.Error())
+			}
+			continue
+		}
+		tw.Close()
+		rep.Histogram["tarfs.findings:gnutar-xattrs-"+c.name+":written"]++
+		want := c.recs[1]
+		found := false
+		tr := gnutar.NewReader(&gt)
+		for {
+			h, err := tr.Next()
+			if err != nil {
+				break
+			}
+			if path.Clean(h.Name) == want.path {
+				found = true
+				if xattrStr(desync.Xattrs(h.Xattrs)) != xattrStr(desync.Xattrs(want.xattrs)) {
+					violation(caseLine, "gnu-tar output does not carry the extended attributes of the "+c.name, xattrStr(desync.Xattrs(h.Xattrs)))
 				}
-				if !found {
-					rep.Disagree(Disagreement{Kind: "monitor", Case: caseLine, What: "gnu-tar output does not carry the file's extended attribute"})
+				if want.mtime != 0 && h.ModTime.UnixNano() != want.mtime {
+					violation(caseLine, "gnu-tar output (PAX header) does not carry the modification time of the "+c.name+" to the nanosecond", fmt.Sprint(h.ModTime.UnixNano()))
 				}
 			}
 		}
+		if !found {
+			violation(caseLine, "gnu-tar output has no entry for the "+c.name, "")
+		}
 	}
-	// (2) and (3): entries that are not files, directories, links or devices
-	type tcase struct {
-		name string
-		hs   []*gnutar.Header
-		data map[string]string
-		want []string // path:content of every regular file the tree holds
-	}
-	cases := []tcase{
-		{"hardlink", []*gnutar.Header{
+	// (2) a hard link entry: Tar must fail, not write an empty file
+	{
+		b := stream([]*gnutar.Header{
 			{Typeflag: gnutar.TypeDir, Name: "./", Mode: 0755, ModTime: mt},
 			{Typeflag: gnutar.TypeReg, Name: "./a", Mode: 0644, ModTime: mt},
 			{Typeflag: gnutar.TypeLink, Name: "./b", Linkname: "./a", Mode: 0644, ModTime: mt}},
-			map[string]string{"./a": "content"}, []string{"a:content", "b:content"}},
-		{"pax-global-header", []*gnutar.Header{
-			{Typeflag: gnutar.TypeXGlobalHeader, Name: "pax_global_header", PAXRecords: map[string]string{"comment": "0123456789abcdef"}, Format: gnutar.FormatPAX},
-			{Typeflag: gnutar.TypeDir, Name: "./", Mode: 0755, ModTime: mt},
-			{Typeflag: gnutar.TypeReg, Name: "./a", Mode: 0644, ModTime: mt}},
-			map[string]string{"./a": "content"}, []string{"a:content"}},
-	}
-	for _, c := range cases {
-		b := stream(c.hs, c.data)
-		caseLine := "tarinput." + c.name + " bytes=" + hx(b)
+			map[string]string{"./a": "content"})
+		caseLine := "tarinput.hardlink bytes=" + hx(b)
 		rep.Count(caseLine, true, "tarfs.findings")
 		ar, err := catarOf(b)
+		switch {
+		case err == nil:
+			_, nodes := untarNodes(ar)
+			violation(caseLine, "tar-stream input with a hard link entry: Tar succeeded (the content under the second name cannot be in the archive)", strings.Join(nodes, ";"))
+		case !strings.Contains(err.Error(), "hard links are not supported"):
+			violation(caseLine, "tar-stream input with a hard link entry: Tar failed, but not for the hard link: "+err.Error(), "")
+		}
+	}
+	// (3) PAX global headers: the catar is the one of the stream without them
+	{
+		g := func(c string) *gnutar.Header {
+			return &gnutar.Header{Typeflag: gnutar.TypeXGlobalHeader, Name: "pax_global_header", PAXRecords: map[string]string{"comment": c}, Format: gnutar.FormatPAX}
+		}
+		d := &gnutar.Header{Typeflag: gnutar.TypeDir, Name: "./", Mode: 0755, ModTime: mt}
+		a := &gnutar.Header{Typeflag: gnutar.TypeReg, Name: "./a", Mode: 0644, ModTime: mt}
+		sub := &gnutar.Header{Typeflag: gnutar.TypeDir, Name: "./s/", Mode: 0700, ModTime: mt}
+		c := &gnutar.Header{Typeflag: gnutar.TypeSymlink, Name: "./s/c", Linkname: "../a", Mode: 0777, ModTime: mt}
+		data := map[string]string{"./a": "content"}
+		plain, err := catarOf(stream([]*gnutar.Header{d, a, sub, c}, data))
 		if err != nil {
-			rep.Disagree(Disagreement{Kind: "monitor", Case: caseLine, What: "Tar from a tar stream failed: " + err.Error()})
-			continue
+			violation("tarinput.pax-global-header plain", "Tar from a tar stream failed: "+err.Error(), "")
 		}
-		_, nodes := untarNodes(ar)
-		var got []string
-		for _, n := range nodes { // F:<name hex>:uid:gid:mode:mtime:xattrs:<len>:<data hex>
-			f := strings.Split(n, ":")
-			if f[0] == "F" && len(f) >= 9 {
-				got = append(got, string(unhx(f[1]))+":"+string(unhx(f[len(f)-1])))
+		for name, hs := range map[string][]*gnutar.Header{
+			"leading":      {g("0123456789abcdef"), d, a, sub, c},
+			"two-in-a-row": {g("1"), g("2"), d, a, sub, c},
+			"in-the-middle": {d, a, g("1"), sub, g("2"), g("3"), c},
+			"at-the-end":   {g("0"), d, a, sub, c, g("1")},
+		} {
+			b := stream(hs, data)
+			caseLine := "tarinput.pax-global-header." + name + " bytes=" + hx(b)
+			rep.Count(caseLine, true, "tarfs.findings")
+			ar, err := catarOf(b)
+			if err != nil {
+				violation(caseLine, "tar-stream input with PAX global headers ("+name+"): Tar failed: "+err.Error(), "")
+			} else if !bytes.Equal(ar, plain) {
+				_, nodes := untarNodes(ar)
+				violation(caseLine, "tar-stream input with PAX global headers ("+name+"): the archive differs from the one made from the stream without them", strings.Join(nodes, ";"))
 			}
-		}
-		sort.Strings(got)
-		if strings.Join(got, " ") != strings.Join(c.want, " ") {
-			rep.Disagree(Disagreement{Kind: "monitor", Case: caseLine, Impl: strings.Join(nodes, ";"), Sig: "tarinput.typeflag-not-a-file-becomes-regular-file",
-				What: fmt.Sprintf("tar-stream input (%s): the files of the tree are %v, the archive made from the stream holds %v", c.name, c.want, got)})
 		}
 	}
 }
